@@ -146,6 +146,19 @@ def default_cases(pid):
                                             {"kind": "pad", "pad_amount": 16, "section": ".rdata"}, {"path": "d.o"}]},
                                  {"name": "ovl", "wildcard_sections": False, "alloc_sections": [".text", ".ovl_data"], "noload_sections": [],
                                   "files": [{"path": "o1.o"}, {"path": "lib/libo.a", "kind": "archive", "subfile": "m.o", "keep_sections": [".text"]}]}]}),
+        # a follower of two classes of which the first has only an excluded member; a segment name used twice under
+        # exclusive conditions and followed by another segment
+        ("normal", {"vram_classes": [{"name": "A", "fixed_vram": 0x80100000}, {"name": "B", "fixed_vram": 0x80200000},
+                                     {"name": "C", "follows_classes": ["A", "B"]}],
+                    "segments": [{"name": "boot", "fixed_vram": 0x80000400, "files": [{"path": "a.o"}]},
+                                 {"name": "a_jp", "vram_class": "A", "files": [{"path": "aj.o"}], "include_if_any": [["version", "jp"]]},
+                                 {"name": "b1", "vram_class": "B", "files": [{"path": "b1.o"}, {"path": "b2.o"}]},
+                                 {"name": "c1", "vram_class": "C", "files": [{"path": "c1.o"}]},
+                                 {"name": "model", "files": [{"path": "mj.o"}], "include_if_any": [["version", "jp"]]},
+                                 {"name": "font", "files": [{"path": "f.o"}, {"path": "g.o"}]},
+                                 {"name": "model", "files": [{"path": "mu.o"}], "include_if_any": [["version", "us"]]},
+                                 {"name": "other", "files": [{"path": "o.o"}]},
+                                 {"name": "anims", "follows_segment": "model", "files": [{"path": "an.o"}]}]}),
     ]
     for mode, doc in combos:
         out.append({"id": "combo%d" % k, "seed": 31 + k, "stream": "valid", "opts": [["version", "us"]], "mode": mode, "version_comment": False,
@@ -1637,6 +1650,40 @@ class C03(ImageProperty):
         from . import image
         return image.check_vram(L, info), []
 
+    def evaluate(self, w, c):
+        res = ImageProperty.evaluate(self, w, c)
+        if res.get("status") not in ("ok", "corr") or res.get("impl_outcome") != "ok":
+            return res
+        # text level, ordinary script and main script of partial mode: the header of every emitted segment carries exactly
+        # the address the document requests (literal, symbol, end of the followed segment, class start) or none
+        impl = w.h.run(engine_request(c))
+        info = w.d.ask({"op": "docinfo", "case": {"id": c["id"], "doc": tree.to_proto(c["doc"]), "opts": c["opts"]}})
+        if impl.get("outcome") != "ok" or not info or "segments" not in info or info["single"]:
+            return res
+        cls = {cl["name"]: cl["start"] for cl in info.get("classes", [])}
+        text = impl.get("script") or ""
+        pos = 0
+        unavailable = None
+        for sg in info["segments"]:
+            if not sg["emitted"]:
+                continue
+            want = ("0x%08X" % sg["fixed_vram"]) if sg.get("fixed_vram") is not None else sg.get("fixed_symbol") or sg.get("follows_end_sym") or \
+                (cls.get(sg["vram_class"]) if sg.get("vram_class") else None)
+            m = re.compile(r"^[ \t]*" + re.escape("." + sg["name"]) + r"(?: (\S+))? : AT\(", re.M).search(text, pos)
+            if not m:
+                res.update(status="violation", why="no output section header for the emitted segment %s (in document order)" % sg["name"])
+                return res
+            pos = m.end()
+            if m.group(1) != want:
+                res.update(status="violation", why="segment %s asks for the address %s, its header carries %s" % (sg["name"], want, m.group(1)))
+                return res
+            fe = sg.get("follows_end_sym")
+            if fe and res["status"] == "ok" and not re.search(r"^[ \t]*" + re.escape(fe) + r" = ", text[:m.start()], re.M):
+                unavailable = sg["name"]
+        if res["status"] == "ok" and unavailable is not None:
+            res.update(status="kf:KF-C03-follows-unavailable", why="known finding KF-C03-follows-unavailable: segment %s" % unavailable)
+        return res
+
 
 class C04(ImageProperty):
     pid = "C04"
@@ -2035,6 +2082,24 @@ class C11(Property):
                 sgm["name"] = sgm["name"] + "." + r.pick(["title", "select", "x"])
         c.pop("link", None)     # make_case decides which cases are linked
 
+    def extra_cases(self, tier):
+        """a missing partial folder is an error whatever the segments and options are: every segment excluded, the first
+        emitted segment failing on its own (an unprovided {key}), no segment at all"""
+        out = []
+        k = 0
+        for missing in ("partial_build_segments_folder", "partial_scripts_folder"):
+            for segs, opts in (
+                    ([{"name": "boot", "files": [{"path": "a.o"}], "include_if_any": [["version", "jp"]]},
+                      {"name": "main", "files": [{"path": "b.o"}], "exclude_if_all": [["version", "us"]]}], [["version", "us"]]),
+                    ([{"name": "boot", "files": [{"path": "src/{nokey}/a.o"}]}, {"name": "main", "files": [{"path": "b.o"}]}], []),
+                    ([{"name": "boot", "files": [{"path": "a.o"}]}], [])):
+                st = {"base_path": "build", "partial_scripts_folder": "ps", "partial_build_segments_folder": "pb"}
+                st.pop(missing)
+                out.append({"id": "nofolder%d" % k, "seed": 40 + k, "stream": "valid", "opts": opts, "mode": "partial", "version_comment": False,
+                            "link": False, "doc": {"settings": st, "segments": copy.deepcopy(segs)}})
+                k += 1
+        return out
+
     def make_case(self, seed, idx):
         c = Property.make_case(self, seed, idx)
         c["link"] = (idx % self.link_every == 0) and c.get("link") is not False   # a tweak may rule a case out of linking
@@ -2232,6 +2297,34 @@ class C08(Property):
             res.update(status="violation", restated_doc=doc2,
                        why="restating every effective value on the segments (and changing the now shielded global values) changed the outputs: "
                            + ",".join(k for k in OUT_KEYS if impl.get(k) != impl2.get(k)))
+            return res
+        # the effective values as the script shows them, segment by segment (ordinary multi-segment scripts): `*` on every
+        # input statement iff wildcard_sections, FILL iff fill_value, SUBALIGN iff subalign
+        st0 = c["doc"].get("settings") if isinstance(c["doc"].get("settings"), dict) else {}
+        if c["mode"] == "normal" and not (st0 or {}).get("single_segment_mode"):
+            stmts = image.parse_script(impl.get("script") or "")
+            text = impl.get("script") or ""
+            names = [sg.get("name") for sg in c["doc"]["segments"]]
+            for seg, eff in zip(c["doc"]["segments"], rr["segments"]):
+                if names.count(seg["name"]) > 1:
+                    continue        # two segments of one name: their output sections cannot be told apart by name
+                outs = ("." + seg["name"], "." + seg["name"] + ".noload")
+                wrong = [x for x in stmts if x["kind"] == "input" and x["outsec"] in outs and x["wild"] != eff["wildcard_sections"]]
+                if wrong:
+                    res.update(status="violation", why="segment %s: wildcard_sections is %s but the script has `%s(%s%s)`" % (
+                        seg["name"], eff["wildcard_sections"], wrong[0]["path"], wrong[0]["sec"], "*" if wrong[0]["wild"] else ""))
+                    return res
+                for m in re.finditer(r"^[ \t]*" + re.escape("." + seg["name"]) + r"(?:\.noload \(NOLOAD\)| \S+| ?) ?:[^\n]*\n[ \t]*\{\n([^\n]*)\n", text, re.M):
+                    hdr = m.group(0).split("\n")[0]
+                    sub = re.search(r"SUBALIGN\((\d+)\)", hdr)
+                    if (int(sub.group(1)) if sub else None) != eff["subalign"]:
+                        res.update(status="violation", why="segment %s: subalign is %s but the header reads `%s`" % (seg["name"], eff["subalign"], hdr.strip()))
+                        return res
+                    fill = re.match(r"^[ \t]*FILL\(0x([0-9A-Fa-f]+)\);$", m.group(1))
+                    if (int(fill.group(1), 16) if fill else None) != eff["fill_value"]:
+                        res.update(status="violation", why="segment %s: fill_value is %s but the output section starts with `%s`" % (
+                            seg["name"], eff["fill_value"], m.group(1).strip()))
+                        return res
         return res
 
     def extra_cases(self, tier):
